@@ -181,13 +181,14 @@ def exitCtl : Ctl → Ctl
 loop with control `c`; everything about the automaton is conditional on the events satisfying `ok`. -/
 theorem iterate_inv {σ : Type} (run : σ → List Event → Option σ)
     (run_app : ∀ a b s s1 s2, run s a = some s1 → run s1 b = some s2 → run s (a ++ b) = some s2)
-    (ok : Event → Bool) (IE : Env → Prop) (IS : Env → σ → Prop) (Post : Ctl → Env → σ → Prop)
+    (ok : Event → Bool) (IE : Env → Prop) (C : Ctl → Prop) (IS : Env → σ → Prop) (Post : Ctl → Env → σ → Prop)
     (body : Env → List Val → Except String Out)
-    (hbody : ∀ env inp, IE env → ∃ o, body env inp = .ok o ∧ IE o.env ∧
+    (hbody : ∀ env inp, IE env → ∃ o, body env inp = .ok o ∧ IE o.env ∧ C o.ctl ∧
       ∀ s, IS env s → o.events.all ok = true → ∃ s', run s o.events = some s' ∧
         ((o.ctl = .normal ∨ o.ctl = .cont) → IS o.env s') ∧
         (¬ (o.ctl = .normal ∨ o.ctl = .cont) → Post o.ctl o.env s')) :
     ∀ n env inp acc, IE env → ∃ out, iterate body n env inp acc = .ok out ∧ IE out.env ∧
+      (out.ctl = .fuel ∨ ∃ c, C c ∧ ¬ (c = .normal ∨ c = .cont) ∧ out.ctl = exitCtl c) ∧
       ∀ s0 s, run s0 acc = some s → IS env s → out.events.all ok = true →
         ∃ s', run s0 out.events = some s' ∧
           ((out.ctl = .fuel ∧ IS out.env s') ∨
@@ -196,22 +197,22 @@ theorem iterate_inv {σ : Type} (run : σ → List Event → Option σ)
   induction n with
   | zero =>
     intro env inp acc hE
-    refine ⟨_, rfl, hE, ?_⟩
+    refine ⟨_, rfl, hE, .inl rfl, ?_⟩
     intro s0 s hr hS _
     exact ⟨s, hr, .inl ⟨rfl, hS⟩⟩
   | succ n ih =>
     intro env inp acc hE
-    obtain ⟨o, ho, hE', hrest⟩ := hbody env inp hE
+    obtain ⟨o, ho, hE', hC, hrest⟩ := hbody env inp hE
     simp only [iterate, ho, bind, Except.bind]
     by_cases hc : o.ctl = .normal ∨ o.ctl = .cont
-    · obtain ⟨out, hout, hE2, h2⟩ := ih o.env o.inp (acc ++ o.events) hE'
+    · obtain ⟨out, hout, hE2, hC2, h2⟩ := ih o.env o.inp (acc ++ o.events) hE'
       have heq : (match o.ctl with
           | .normal | .cont => iterate body n o.env o.inp (acc ++ o.events)
           | .brk => Except.ok { o with events := acc ++ o.events, ctl := .normal }
           | c => Except.ok { o with events := acc ++ o.events, ctl := c }) =
           iterate body n o.env o.inp (acc ++ o.events) := by
         rcases hc with hc | hc <;> simp [hc]
-      refine ⟨out, by rw [← hout]; exact heq, hE2, ?_⟩
+      refine ⟨out, by rw [← hout]; exact heq, hE2, hC2, ?_⟩
       intro s0 s hr hS hok
       have hpre : (acc ++ o.events).all ok = true := by
         obtain ⟨pre, hpre⟩ : ∃ suf, out.events = (acc ++ o.events) ++ suf := iterate_events body n _ _ _ _ hout
@@ -221,7 +222,7 @@ theorem iterate_inv {σ : Type} (run : σ → List Event → Option σ)
       rw [List.all_append, Bool.and_eq_true] at hpre
       obtain ⟨s1, hr1, hS1, -⟩ := hrest s hS hpre.2
       exact h2 s0 s1 (run_app _ _ _ _ _ hr hr1) (hS1 hc) hok
-    · refine ⟨{ o with events := acc ++ o.events, ctl := exitCtl o.ctl }, ?_, hE', ?_⟩
+    · refine ⟨{ o with events := acc ++ o.events, ctl := exitCtl o.ctl }, ?_, hE', .inr ⟨o.ctl, hC, hc, rfl⟩, ?_⟩
       · cases hctl : o.ctl <;> simp_all [exitCtl]
       · intro s0 s hr hS hok
         simp only [List.all_append, Bool.and_eq_true] at hok
@@ -249,23 +250,24 @@ where
 `hL : exec fuel (.loop B) env inp = X` -/
 theorem loop_inv {σ : Type} (run : σ → List Event → Option σ) (run_nil : ∀ s, run s [] = some s)
     (run_app : ∀ a b s s1 s2, run s a = some s1 → run s1 b = some s2 → run s (a ++ b) = some s2)
-    (ok : Event → Bool) (IE : Env → Prop) (IS : Env → σ → Prop) (Post : Ctl → Env → σ → Prop)
+    (ok : Event → Bool) (IE : Env → Prop) (C : Ctl → Prop) (IS : Env → σ → Prop) (Post : Ctl → Env → σ → Prop)
     {fuel : Nat} {B : Stmt} {env : Env} {inp : List Val} {X : Except String Out}
     (hL : exec fuel (.loop B) env inp = X)
-    (hbody : ∀ env inp, IE env → ∃ o, exec fuel B env inp = .ok o ∧ IE o.env ∧
+    (hbody : ∀ env inp, IE env → ∃ o, exec fuel B env inp = .ok o ∧ IE o.env ∧ C o.ctl ∧
       ∀ s, IS env s → o.events.all ok = true → ∃ s', run s o.events = some s' ∧
         ((o.ctl = .normal ∨ o.ctl = .cont) → IS o.env s') ∧
         (¬ (o.ctl = .normal ∨ o.ctl = .cont) → Post o.ctl o.env s'))
     (hE : IE env) :
     ∃ out, X = .ok out ∧ IE out.env ∧
+      (out.ctl = .fuel ∨ ∃ c, C c ∧ ¬ (c = .normal ∨ c = .cont) ∧ out.ctl = exitCtl c) ∧
       ∀ s, IS env s → out.events.all ok = true →
         ∃ s', run s out.events = some s' ∧
           ((out.ctl = .fuel ∧ IS out.env s') ∨
            (∃ c, ¬ (c = .normal ∨ c = .cont) ∧ Post c out.env s' ∧ out.ctl = exitCtl c)) := by
   rw [exec.eq_6] at hL
-  obtain ⟨out, h1, h2, h3⟩ :=
-    iterate_inv run run_app ok IE IS Post (fun e i => exec fuel B e i) hbody fuel env inp [] hE
-  refine ⟨out, by rw [← hL, h1], h2, ?_⟩
+  obtain ⟨out, h1, h2, hC, h3⟩ :=
+    iterate_inv run run_app ok IE C IS Post (fun e i => exec fuel B e i) hbody fuel env inp [] hE
+  refine ⟨out, by rw [← hL, h1], h2, hC, ?_⟩
   intro s hS hok
   exact h3 s s (run_nil s) hS hok
 
@@ -316,13 +318,20 @@ macro "fx_exec" "[" ts:simpLemma,* "]" : tactic =>
       bindParams, setDst, evalUn, evalBin_eq, evalBin_ne, evalBin_lt, boolV, truthy_int, truthy_ptr, *, $ts,*])
 
 open Lean.Parser.Tactic in
+/-- `fx_exec` without the local hypotheses -/
+macro "fx_exec0" "[" ts:simpLemma,* "]" : tactic =>
+  `(tactic| simp [block, exec.eq_1, exec.eq_2, exec.eq_3, exec.eq_4, exec.eq_5, exec.eq_7, exec.eq_8, exec.eq_9, exec.eq_10,
+      exec.eq_11, exec.eq_12, exec.eq_13, eval, evalArgs, execPrim, bind, Except.bind, asLoc, Env.setVar, Env.setPriv,
+      bindParams, setDst, evalUn, evalBin_eq, evalBin_ne, evalBin_lt, boolV, truthy_int, truthy_ptr, $ts,*])
+
+open Lean.Parser.Tactic in
 /-- run the abstraction and the generic automata on a closed event list -/
 macro "fx_abs" "[" ts:simpLemma,* "]" : tactic =>
   `(tactic| simp [accept_nil, accept_cons, accept_append_eq, all_append_iff, absEvW, absEvK, evOk, runA, gwstep, gkstep,
       waitArgs, wakeArgs, Event.loc?, truthy_int, truthy_ptr, exitCtl, *, $ts,*])
 
 set_option hygiene false in
-macro "wait_leaf" : tactic => `(tactic| (fx_exec [] <;> fx_abs []))
+macro "wait_leaf" : tactic => `(tactic| (fx_exec [WaitCtl] <;> fx_abs []))
 
 set_option hygiene false in
 /-- one iteration of a futex wait loop (`inp1` = the oracle): case analysis on the values the load of the futex word,
@@ -365,19 +374,28 @@ def LoopPost (F : Loc) (A : Int) (fn : String) (out : Out) : Prop :=
     ∃ g', accept (absEvW F A fn) (gwstep A) .chk out.events = some g' ∧
       ((out.ctl = .fuel ∧ g' = .chk) ∨ out.ctl = .blocked ∨ ((out.ctl = .normal ∨ out.ctl = .ret none) ∧ g' = .done))
 
+/-- the ways an iteration of a futex wait loop ends -/
+def WaitCtl (c : Ctl) : Prop := c = .normal ∨ c = .cont ∨ c = .brk ∨ c = .ret none ∨ c = .blocked
+
 /-- the loop rule instantiated for a futex wait loop -/
 theorem wait_loop (F : Loc) (A : Int) (fn : String) (IE : Env → Prop)
     {fuel : Nat} {B : Stmt} {env : Env} {inp : List Val} {X : Except String Out}
     (hL : exec fuel (.loop B) env inp = X)
-    (hbody : ∀ env inp, IE env → ∃ o, exec fuel B env inp = .ok o ∧ IE o.env ∧
+    (hbody : ∀ env inp, IE env → ∃ o, exec fuel B env inp = .ok o ∧ IE o.env ∧ WaitCtl o.ctl ∧
       ∀ s, s = GWPc.chk → o.events.all (evOk F) = true → ∃ s', accept (absEvW F A fn) (gwstep A) s o.events = some s' ∧
         ((o.ctl = .normal ∨ o.ctl = .cont) → s' = .chk) ∧
         (¬ (o.ctl = .normal ∨ o.ctl = .cont) → o.ctl = .blocked ∨ ((o.ctl = .brk ∨ o.ctl = .ret none) ∧ s' = .done)))
     (hE : IE env) :
-    ∃ out, X = .ok out ∧ IE out.env ∧ LoopPost F A fn out := by
-  obtain ⟨out, h1, h2, h3⟩ := loop_inv (accept (absEvW F A fn) (gwstep A)) (accept_nil _ _) (accept_append _ _) (evOk F) IE
+    ∃ out, X = .ok out ∧ IE out.env ∧
+      (out.ctl = .fuel ∨ out.ctl = .blocked ∨ out.ctl = .normal ∨ out.ctl = .ret none) ∧ LoopPost F A fn out := by
+  obtain ⟨out, h1, h2, hC, h3⟩ := loop_inv (accept (absEvW F A fn) (gwstep A)) (accept_nil _ _) (accept_append _ _)
+    (evOk F) IE WaitCtl
     (fun _ s => s = .chk) (fun c _ s => c = .blocked ∨ ((c = .brk ∨ c = .ret none) ∧ s = .done)) hL hbody hE
-  refine ⟨out, h1, h2, ?_⟩
+  refine ⟨out, h1, h2, ?_, ?_⟩
+  · rcases hC with h | ⟨c, hc, hn, he⟩
+    · exact .inl h
+    · unfold WaitCtl at hc
+      rcases hc with rfl | rfl | rfl | rfl | rfl <;> simp_all [exitCtl]
   intro hok
   obtain ⟨g', hg, hpost⟩ := h3 _ rfl hok
   refine ⟨g', hg, ?_⟩
@@ -387,5 +405,51 @@ theorem wait_loop (F : Loc) (A : Int) (fn : String) (IE : Env → Prop)
     · exact .inr (.inl hc3)
     · exact .inr (.inr ⟨.inl hc3, rfl⟩)
     · exact .inr (.inr ⟨.inr hc3, rfl⟩)
+
+/-- what a call of a futex waiter guarantees: the private view is unchanged, and under the system-call contract the
+events are a run of the generic waiter from `chk`, at `done` when the call completes -/
+def WaitPost (F : Loc) (A : Int) (fn : String) (env : Env) (out : Out) : Prop :=
+  out.env.priv = env.priv ∧ LoopPost F A fn out
+
+open Lean.Parser.Tactic in
+set_option hygiene false in
+/-- conclusion of a waiter theorem from the loop's (`h`): the events before / after the loop are silent -/
+macro "loop_post" h:ident "[" ts:simpLemma,* "]" : tactic => `(tactic| (
+   unfold LoopPost
+   intro hok
+   simp only [] at hok ⊢
+   try simp only [List.all_cons, all_append_iff, List.all_nil, Bool.and_eq_true] at hok
+   first
+   | (simp [evOk, *] at hok; done)
+   | (obtain ⟨g', hg, hp⟩ := $h (by simp_all)
+      try simp only [$ts,*] at hg
+      refine ⟨g', by fx_abs [hg], ?_⟩
+      simp_all)))
+
+/-- what a call of a futex waker guarantees: only the futex word changes in the private view; when the futex word
+holds an integer (`evOk`), the events are a run of the generic waker from `k1` (any register content `r0`), at `k4` when
+the call completes -/
+def WakePost (F : Loc) (fn : String) (env : Env) (out : Out) : Prop :=
+  (∀ l, l ≠ F → out.env.priv l = env.priv l) ∧
+  (out.ctl = .normal ∨ out.ctl = .blocked) ∧
+  (out.events.all (evOk F) = true →
+    ∀ r0, ∃ k', accept (absEvK F fn) gkstep { kpc := .k1, r := r0 } out.events = some k' ∧
+      (out.ctl = .normal → k'.kpc = .k4))
+
+set_option hygiene false in
+/-- case analysis on the oracle of a waker: value loaded from the futex word, result of FUTEX_WAKE -/
+macro "wake_cases" leaf:tacticSeq : tactic =>
+  `(tactic| (
+    cases inp with
+    | nil => ($leaf)
+    | cons v rest =>
+      by_cases hv : v = .int (-1)
+      · subst hv
+        cases rest with
+        | nil => ($leaf)
+        | cons r rest => ($leaf)
+      · cases v with
+        | int n => have hn : n ≠ -1 := fun h => hv (by rw [h]); ($leaf)
+        | ptr l => ($leaf)))
 
 end UrcuVerif.Src.Futex
